@@ -24,6 +24,59 @@ DELEG_CALLEES = {"solve", "_solve", "_cholesky_solve", "_inv_matmul", "_maybe_re
                  "sqrt_inv_matmul", "contour_integral_quad", "apply", "cholesky", "_cholesky", "expand", "broadcast_shapes"}
 
 
+# methods that need a square operator (public API); the table records, per defining class, whether the body carries the
+# `if not self.is_square: raise` guard itself (the others reach one through the methods they call, or rely on torch)
+SQUARE_METHODS = ["add_diagonal", "add_jitter", "cholesky", "diagonal", "diagonalization", "eigh", "eigvalsh", "inverse", "inv_quad",
+                  "inv_quad_logdet", "logdet", "root_decomposition", "root_inv_decomposition", "solve", "sqrt_inv_matmul"]
+# methods that dispatch on the class of the second operand (operator-operator shortcuts)
+DISPATCH_METHODS = ["matmul", "__add__", "__sub__", "mul", "_mul_matrix", "add_low_rank"]
+
+
+def _square_guard(fn):
+    """the body has an `if` on `.is_square` that raises"""
+    for n in ast.walk(fn):
+        if isinstance(n, ast.If) and any(isinstance(x, ast.Attribute) and x.attr == "is_square" for x in ast.walk(n.test)) \
+                and any(isinstance(x, ast.Raise) for st in n.body for x in ast.walk(st)):
+            return True
+    return False
+
+
+def _dispatch_events(fn, meth):
+    """in source order: `GUARD` (call of `_matmul_broadcast_shape` / `broadcast_shapes`), `SUPER` (`super().<meth>(...)`),
+    `if <test>` for every `if` / `elif` whose test calls `isinstance` or compares shapes."""
+    ev = []
+
+    def visit(node):
+        if isinstance(node, ast.If):
+            t = node.test
+            if any((isinstance(x, ast.Call) and isinstance(x.func, ast.Name) and x.func.id == "isinstance")
+                   or (isinstance(x, ast.Attribute) and x.attr in ("shape", "diag_shape")) for x in ast.walk(t)):
+                ev.append("if " + ast.unparse(t))
+            for x in ast.walk(t):
+                call(x)
+            for st in node.body + node.orelse:
+                visit(st)
+            return
+        if isinstance(node, (ast.FunctionDef, ast.ClassDef)):
+            return
+        for x in ast.iter_child_nodes(node):
+            call(x)
+            visit(x)
+
+    def call(x):
+        if isinstance(x, ast.Call):
+            f = x.func
+            name = f.id if isinstance(f, ast.Name) else (f.attr if isinstance(f, ast.Attribute) else None)
+            if name in ("_matmul_broadcast_shape", "broadcast_shapes"):
+                ev.append("GUARD")
+            if isinstance(f, ast.Attribute) and f.attr == meth and isinstance(f.value, ast.Call) \
+                    and isinstance(f.value.func, ast.Name) and f.value.func.id == "super":
+                ev.append("SUPER")
+    for st in fn.body:
+        visit(st)
+    return ev
+
+
 def _delegation(fn):
     """sorted list of `callee:U` / `callee:C` — U if some call of it sits in a top-level simple statement of the body that no
     `return` can precede (it is executed on every path), C otherwise (inside a branch / loop, or after a possible early return)."""
@@ -166,6 +219,12 @@ def extract():
             if fn is not None:
                 delegations.append((c, m, _delegation(fn)))
     extract.delegations = delegations
+    extract.square_guards = [((c, m), _square_guard(classes[c]["methods"][m])) for c in sorted(set(ops) | {ROOT})
+                             for m in SQUARE_METHODS if m in classes[c]["methods"]]
+    extract.mros = [(c, [k for k in c3(c, classes, memo) if k in classes]) for c in sorted(set(ops) | {ROOT})]
+    extract.dispatches = [(c, m, _dispatch_events(classes[c]["methods"][m], m)) for c in sorted(set(ops) | {ROOT})
+                          for m in DISPATCH_METHODS if m in classes[c]["methods"]]
+    extract.dispatches = [d for d in extract.dispatches if d[2]]
     base = classes[ROOT]["methods"]
 
     def has(meth, what):
@@ -244,6 +303,16 @@ def generate():
     out += ["", "/-- (class, solve-type method or hook, the hooks / helpers its body calls: `name:U` = on every path, `name:C` = on some) -/",
             "def delegations : List (String × String × List String) := ["]
     out.append(",\n".join(f"  ({lean_str(c)}, {lean_str(m)}, [{', '.join(lean_str(x) for x in d)}])" for c, m, d in extract.delegations) + "]")
+    out += ["", "/-- ((class that defines the method, square-only public method), body carries `if not self.is_square: raise`) -/",
+            "def squareGuards : List ((String × String) × Bool) := ["]
+    out.append(",\n".join(f"  (({lean_str(c)}, {lean_str(m)}), {b(g)})" for (c, m), g in extract.square_guards) + "]")
+    out += ["", "/-- method resolution order of every operator class (C3, classes of linear_operator/operators only) -/",
+            "def mros : List (String × List String) := ["]
+    out.append(",\n".join(f"  ({lean_str(c)}, [{', '.join(lean_str(x) for x in l)}])" for c, l in extract.mros) + "]")
+    out += ["", "/-- operator-operator dispatch: (class, method, in source order: `GUARD` = shape guard call, `SUPER` = super().<method>,",
+            "    `if <test>` = a branch on the other operand's class / shapes, with its exact condition) -/",
+            "def dispatches : List (String × String × List String) := ["]
+    out.append(",\n".join(f"  ({lean_str(c)}, {lean_str(m)}, [{', '.join(lean_str(x) for x in d)}])" for c, m, d in extract.dispatches) + "]")
     out += ["", "end LinOp.Generated.C19", ""]
     text = "\n".join(out)
     path = os.path.join(LEAN, "LinOp", "Generated", "C19Guards.lean")
